@@ -37,6 +37,27 @@ ONEQ_PARAM = ["Rx", "Ry", "Rz"]
 TWOQ = ["CNOT", "CZ", "CR", "CRk"]
 
 
+def _call(f, args: list, spec: list):
+    """Call a named instruction positionally or — for a quarter of the specs, chosen by a hash of the spec so that the
+    choice replays — with keyword arguments written in another order than the signature's (reversed, or rotated):
+    the statement built must be the same. A function whose signature cannot be read is called positionally."""
+    import inspect
+    import zlib
+
+    h = zlib.crc32(repr(spec).encode())
+    if len(args) < 2 or h % 4 != 0:
+        return f(*args)
+    try:
+        names = list(inspect.signature(f).parameters)
+    except (TypeError, ValueError):
+        return f(*args)
+    if len(names) != len(args):
+        return f(*args)
+    pairs = list(zip(names, args))
+    pairs = pairs[::-1] if (h // 4) % 2 == 0 else pairs[1:] + pairs[:1]
+    return f(**dict(pairs))
+
+
 def build_stmt(spec: list, funcs: dict[str, Any] | None = None):
     from opensquirrel.ir import Bit, BlochSphereRotation, Comment, ControlledGate, Float, MatrixGate
 
@@ -49,7 +70,7 @@ def build_stmt(spec: list, funcs: dict[str, Any] | None = None):
         for i, a in enumerate(args):
             kind = sig[i] if sig and i < len(sig) else ("f" if isinstance(a, float) else "q")
             conv.append(Float(a) if kind == "f" else a)
-        return funcs[name](*conv)
+        return _call(funcs[name], conv, spec)
     if k == "bsr":
         return BlochSphereRotation(qubit=spec[1], axis=tuple(spec[2]), angle=spec[3], phase=spec[4])
     if k == "ctrl":
@@ -58,9 +79,9 @@ def build_stmt(spec: list, funcs: dict[str, Any] | None = None):
         m = np.array([[complex(re, im) for re, im in row] for row in spec[2]], dtype=np.complex128)
         return MatrixGate(m, spec[1])
     if k in ("measure", "measure_z"):
-        return funcs[k](spec[1], Bit(spec[2]))
+        return _call(funcs[k], [spec[1], Bit(spec[2])], spec)
     if k == "reset":
-        return funcs["reset"](spec[1])
+        return _call(funcs["reset"], [spec[1]], spec)
     if k == "comment":
         return Comment(spec[1])
     raise ValueError(f"unknown spec {spec!r}")
